@@ -10,9 +10,10 @@ RULE = ("seeded hostile histories of the real dimension-wise strategy (d=1..4, 7
         "zeros/ties/single winners/hot spots); oracle evaluated after every refine() and every evaluation. distinct = "
         "hash of final per-dimension (coordinate, level) sequences; non-trivial = at least one lmax raise or rebalancing "
         "rotation or a tree deeper than the start level")
+RULE += (" At the end of every history interpolate_grid is evaluated on the 1-D point lists of a component grid and compared with the function.")
 RULE += (" A fifth of the histories are continued by a second performSpatiallyAdaptiv(start levels, refinement_container=current refinement) for 1..3 further steps.")
 REQUIRED = ["sorted_with_endpoints", "depends_only_on_level", "nested_in_level", "component_points_are_tensor_product",
-            "coefficient_sum_per_point", "nodal_reproduction", "scheme_contract"]
+            "coefficient_sum_per_point", "nodal_reproduction", "nodal_reproduction_grid", "scheme_contract"]
 MIN_NONTRIVIAL = {"quick": 100, "thorough": 1000}
 CHUNK = {"quick": 12, "thorough": 60}
 ASSUMPTIONS = ["tree depth capped at 30 levels (float resolution of midpoint splitting)",
@@ -64,6 +65,37 @@ class Obs(hooks.Observer):
         dimwise.check_interpolation(self.res, c, pts, self.f, where)
 
 
+def grid_interpolation(res, rng, c, f):
+    """The tensor-grid entry point of the combined interpolant: on the 1-D point lists of one component grid (all of whose
+    tensor points belong to the combined grid) interpolate_grid must return the function values, like __call__ does."""
+    import itertools
+    import numpy as np
+    if not getattr(c, "scheme", None):
+        return
+    boundary = c.grid.boundary
+    cand = []
+    for g in c.scheme:
+        coords, _, _ = c.get_point_coord_for_each_dim(list(g.levelvector))
+        axes = [[float(x) for x in (cs if boundary else cs[1:-1])] for cs in coords]
+        n = 1
+        for ax in axes:
+            n *= len(ax)
+        if 0 < n <= 3000:
+            cand.append(axes)
+    if not cand:
+        res.note("no_component_grid_small_enough_for_interpolate_grid")
+        return
+    axes = rng.choice(cand)
+    vals = np.asarray(c.interpolate_grid(axes))
+    pts = list(itertools.product(*axes))
+    exp = np.array([f.eval(p) for p in pts])
+    nsch = sum(abs(g.coefficient) for g in c.scheme)
+    scale = max(1.0, float(np.max(np.abs(exp)))) * nsch
+    res.close("nodal_reproduction_grid", vals, exp, 1e-11 * scale, "dimwise_interpolate_grid_not_nodal",
+              "interpolate_grid on the 1-D point lists of a component grid differs from the function at these points of the combined grid",
+              {"axes": [ax[:20] for ax in axes]})
+
+
 def run_case(case, res):
     rng = random.Random(case["seed"])
     cfg = dimwise.gen_config(rng, case.get("tier", "quick"))
@@ -75,6 +107,7 @@ def run_case(case, res):
     dimwise.maybe_prior_run(rng, c, cfg, err, res)
     dimwise.run(c, cfg, err)
     dimwise.maybe_restart(rng, c, cfg, err, obs, res)
+    grid_interpolation(res, rng, c, f)
     deepest = obs.deepest(c)
     res.hash = dimwise.structure_digest(c)
     res.nontrivial = obs.lmax_raises > 0 or obs.rotations > 0 or deepest > cfg["lmax"]
